@@ -218,6 +218,8 @@ func Part(run *report.Run, crash bool) {
 					panic(err)
 				}
 				cdb.Log = nil // start-up writes are not part of the operation
+				// the node served reads on its main state before the sync (RPC, mempool): its state objects are cached
+				_ = stateView(F.App.State)
 				if err := fastSync(F, src, m); err != nil {
 					run.Violation("fast-sync-fails", what+": "+err.Error(), nil)
 					return
@@ -254,7 +256,29 @@ func Part(run *report.Run, crash bool) {
 				}
 				n := len(cdb.Log)
 				if !crash {
-					run.Sample(map[string]interface{}{"operation": what, "heights_compared": m - h0})
+					// the node keeps running on the same state objects: what it reads now is the snapshot's content,
+					// and it follows the rest of the source chain to the same roots
+					SM, err := world.OpenAs(src.r.Opts, src.images[m], src.block(m).Header.Time(), world.G)
+					if err != nil {
+						panic(err)
+					}
+					if got, want := stateView(F.App.State), stateView(SM.App.State); got != want {
+						run.Violation("fast-sync:state-reads-differ", fmt.Sprintf("%s: after the switch the running node reads other values from its state than a node that executed the chain to height %d:\n got  %s\n want %s", what, m, got, want), nil)
+						return
+					}
+					for h := m + 1; h <= top; h++ {
+						replica.SetTime(src.block(h).Header.Time() + 1)
+						if err := F.Add(src.block(h)); err != nil {
+							run.Violation("fast-sync:running-node-rejects-next-block", fmt.Sprintf("%s: the node that kept running after the switch rejects block %d of the source chain: %v", what, h, err), nil)
+							return
+						}
+						run.Add("fast_sync_blocks_followed_after_switch", 1)
+					}
+					if F.App.State.Root() != src.r.App.State.Root() || F.App.IdentityState.Root() != src.r.App.IdentityState.Root() {
+						run.Violation("fast-sync:roots-differ-after-catch-up", what+": after following the source chain to its head the roots differ from the source's", nil)
+						return
+					}
+					run.Sample(map[string]interface{}{"operation": what, "heights_compared": m - h0, "blocks_followed_after_switch": top - m})
 					continue
 				}
 				for k := 0; k <= n; k++ {
@@ -266,6 +290,18 @@ func Part(run *report.Run, crash bool) {
 			}
 		}
 	}
+}
+
+// stateView reads the main state through its public getters (and thereby fills its object cache).
+func stateView(st *state.StateDB) string {
+	var sb strings.Builder
+	fmt.Fprintf(&sb, "epoch=%d next=%d period=%d god=%x feePerGas=%v shards=%d", st.Epoch(), st.NextValidationTime().Unix(), st.ValidationPeriod(), st.GodAddress().Bytes()[:4], st.FeePerGas(), st.ShardsNum())
+	for i := 0; i <= world.NEW2; i++ {
+		a := world.A(i)
+		id := st.GetIdentity(a)
+		fmt.Fprintf(&sb, " | %s bal=%v nonce=%d ep=%d st=%d stake=%v inv=%d", world.ActorNames[i], st.GetBalance(a), st.GetNonce(a), st.GetEpoch(a), id.State, id.Stake, id.Invites)
+	}
+	return sb.String()
 }
 
 // fsRecover restarts on the first k writes and checks the node.
